@@ -74,7 +74,7 @@ def make_form(rng, i, klass):
 
 
 # ---------------------------------------------------------------------------- hostile names
-BAD_NAMES = ["2nd", "a<b", "a b", "a&b", 'q"x', "x>", "-x", ".x", "a/b", "a=b", "foo:bar", "x:", ":x", "a:b:c", "1x", "é", "a\tb", "xml:lang", "a'b"]
+BAD_NAMES = ["rate\u00f72", "a\u00d7b", "x\u037e", "a\u2014b", "\u00b7lead", "a\u2028b", "q\u00a0r", "2nd", "a<b", "a b", "a&b", 'q"x', "x>", "-x", ".x", "a/b", "a=b", "foo:bar", "x:", ":x", "a:b:c", "1x", "é", "a\tb", "xml:lang", "a'b"]
 
 
 def hostile_name_form(rng, i):
@@ -223,6 +223,37 @@ def run_shard(ctx):
             ctx.case(sig=f"nontext|{where}|{'bad' if v else 'ok'}")
             for key, what in v:
                 ctx.viol(f"nontext-cell:{where}:{key.split(':')[0]}", f"[dict workbook, {where} = {wb[sheet][0][col]!r}] accepted and output is {what}", {"workbook": wb, "pretty": pretty, "klass": "nontext"})
+    # ---- API histories: a survey that rendered once is changed through the object API and rendered again
+    if ctx.shard == 0:
+        from pyxform.builder import create_survey_element_from_dict
+        for i in range(40):
+            rng = ctx.rng("api", i)
+            o = drive.call_convert({"survey": [{"type": "text", "name": "q1", "label": "L"}, {"type": "begin group", "name": "g", "label": "G"},
+                                               {"type": "integer", "name": "q2", "label": "N"}, {"type": "end group"}]})
+            if not o.ok:
+                continue
+            sv = o.result._survey
+            sv.to_xml(validate=False)
+            bad = rng.choice(["no. of rooms", "2nd phone", "a<b", "x y", "q&a", "rate\u00f72"])
+            how = rng.choice(["rename", "add_child"])
+            if how == "rename":
+                victim = rng.choice(["q1", "q2", "g"])
+                next(e for e in sv.iter_descendants() if e.name == victim).name = bad
+            else:
+                rng.choice([sv, next(e for e in sv.iter_descendants() if e.name == "g")]).add_child(create_survey_element_from_dict({"type": "text", "name": bad, "label": "x"}))
+            for pretty in (False, True):
+                ctx.ctr("hostile_name_cases")
+                ctx.ctr("api_histories")
+                try:
+                    x = sv.to_xml(validate=False, pretty_print=pretty)
+                except Exception:  # noqa: BLE001 - refusing is fine
+                    ctx.ctr("hostile_name_rejected")
+                    ctx.case(sig=f"api|{how}|rejected")
+                    continue
+                p, v = invariants.c01_wellformed(x)
+                ctx.case(sig=f"api|{how}|{'bad' if v else 'ok'}")
+                for key, what in v:
+                    ctx.viol(f"api-history:{how}-after-first-render:{key.split(':')[0]}", f"[render, {how} {bad!r}, render] second output is {what}", {"klass": "api", "how": how, "bad": bad})
     # ---- fixtures (shard 0 .. k)
     files = common.fixture_files()
     for j, path in enumerate(files):
@@ -243,6 +274,9 @@ def run_shard(ctx):
 
 def replay(w):
     def chk(ctx, wit):
+        if wit.get("klass") == "api":
+            print("API history witness: re-run ./check C01 (the sequence is regenerated from the seed)")
+            return
         if wit.get("klass") == "nontext":
             o = drive.call_convert(wit["workbook"], pretty_print=wit.get("pretty", False))
             form = None
